@@ -225,6 +225,24 @@ def register(db):
         raises=dict(DOCUMENTED), returns="u:Any", properties=["C04", "C10"],
     ))
     db.add(Contract(
+        f"{DD}.bind_value", variant="item-of-a-repeating-element",
+        params={**VAL, "recursive": "bool"},
+        requires=["recursive"],
+        ensures=[], raises=dict(DOCUMENTED), returns="u:Any", properties=["C04"],
+        assumes=["implies(var.list_element, var.factory is not None)"],
+        note="used at the call site inside bind_value: an item of a repeating element is bound as ONE value of the field "
+             "(recursive=True), so an inner list is a token list and not another repetition",
+    ))
+    db.add(Contract(
+        f"{DD}.bind_value", variant="repeating-element",
+        params={**VAL, "recursive": "bool"},
+        requires=NOT_ATTRS + ["var.list_element", "isinstance(value, list)", "not recursive"],
+        call_variants={f"{DD}.bind_value": [("item-of-a-repeating-element", {})]},
+        ensures=[("no-text-binding-of-the-list-itself", "called('DictDecoder.bind_text') == 0")],
+        raises=dict(DOCUMENTED), returns="u:Any", properties=["C04"],
+        assumes=["implies(var.list_element, var.factory is not None)"],
+    ))
+    db.add(Contract(
         f"{DD}.bind_value", variant="attributes-field-copies-the-object",
         params={**VAL, "recursive": "bool"},
         requires=["var.is_attributes", "isinstance(value, dict)"],
